@@ -232,7 +232,10 @@ def _worker(args):
     try:
         module = importlib.import_module(modname)
         rec = Recorder(module, known)
+        t0 = time.time()
         module.run_shard(shard, rec)
+        if isinstance(shard, dict) and 'kind' in shard:
+            rec.note('cpu_ms:' + str(shard['kind']), int((time.time() - t0) * 1000))
         return ('ok', rec.summary())
     except Violation as v:
         # a shard may raise directly for enumerated spaces
